@@ -179,6 +179,7 @@ def run(tier, replay):
                 V.violation("final count %d of %d lines, session ended=%s" % (res["counted"], res["total"], res["ended"]), desc)
         # ---- (B) the recorded traces of the sessions against MaprSchedTrace (registration, rotation, re-queue, exit decision)
         tv_done = tv_acc = tv_states = 0
+        binding_selftest = "not run"
         tvjobs = [(c, res) for c, res in zip(cases, results)
                   if c["nfiles"] <= 5 and not c.get("interim") and min(c["lines"]) > 0 and 0 < len(res.get("trace") or []) < 400]
         if tvjobs:
@@ -194,6 +195,22 @@ def run(tier, replay):
                 elif good:
                     V.diverge("session case %d: result complete but the recorded trace is not a behaviour of MaprSchedTrace" % c["id"])
             log("trace validation: %d of %d session traces accepted by MaprSchedTrace (%d states)" % (tv_acc, tv_done, tv_states))
+            # binding self-test: an accepted trace in which the exit decision is moved in front of a registration must be rejected
+            for (c, res), (acc, _, _) in zip(tvjobs, tvres):
+                evs = session_trace_events(res["trace"])
+                regs = [i for i, e in enumerate(evs) if e["ev"] == "registered"]
+                exits = [i for i, e in enumerate(evs) if e["ev"] == "exit"]
+                if acc and c["nfiles"] >= 2 and len(regs) >= 2 and exits and exits[0] > regs[-1]:
+                    bad = [e for i, e in enumerate(evs) if i != exits[0]]
+                    bad.insert(regs[-1], evs[exits[0]])
+                    fake = dict(c, id=900000 + c["id"])
+                    acc2, _, _ = validate_session_trace(wd, fake, {"trace": ["agg." + e["ev"] + ":0" if e["ev"] != "registered" else "mapr.registered:%d" % e["f"] for e in bad]})
+                    if acc2:
+                        raise vlib.Inconclusive("MaprSchedTrace accepts a trace whose exit decision precedes a registration: the trace spec does not bind")
+                    binding_selftest = "corrupted trace (exit before the last registration) rejected"
+                    break
+            else:
+                binding_selftest = "no suitable trace in this run"
         # ---- server half, direct mode: the harness plays the readers, every model step is forced
         rng.shuffle(dcases)
         dcases = dcases[:(80 if tier == "quick" else 800)]
@@ -257,7 +274,7 @@ def run(tier, replay):
                 V.known("KF_LastMergeSkipped", desc)
             else:
                 V.violation("the final result counts %d of %d lines" % (res["final"], res["total"]), desc)
-        cov = {"states": states, "transitions": trans, "session_traces_checked_against_MaprSchedTrace": tv_done, "session_traces_accepted": tv_acc, "traces_validated_against_impl": followed_full + dfollowed + len(ccases),
+        cov = {"states": states, "transitions": trans, "session_traces_checked_against_MaprSchedTrace": tv_done, "session_traces_accepted": tv_acc, "trace_binding_selftest": binding_selftest, "traces_validated_against_impl": followed_full + dfollowed + len(ccases),
                "evaluations": len(cases) + len(dcases) + len(ccases),
                "distinct_nontrivial": sum(1 for c in cases if not c["free"]) + sum(1 for c in ccases if c["sched"]),
                "rule": "server cases = distinct behaviours of MaprSchedGen (order of registration / closed-channel decision / re-queue steps) from "
